@@ -136,3 +136,85 @@ theorem imagRow_sum (c : Comp) (x : Nat → Nat → K) (icols : List Nat) (hnd :
     icols (fun col => seedCols (fieldAlg p p2) c [col])
 
 end OMV.C14
+
+/-! ### The run-time validator of a coloring implies the hypotheses of the colored theorem -/
+
+namespace OMV.C14
+
+theorem nodupB_sound : ∀ (l : List Nat), nodupB l = true → l.Nodup
+  | [], _ => List.nodup_nil
+  | a :: t, h => by
+    simp only [nodupB, Bool.and_eq_true, Bool.not_eq_true', List.contains_eq_mem,
+      decide_eq_false_iff_not] at h
+    exact List.nodup_cons.mpr ⟨h.1, nodupB_sound t h.2⟩
+
+theorem locate_ge (l : List Shape) : ∀ k, sumSizes l ≤ k → l.length ≤ (locate l k).1 := by
+  induction l with
+  | nil => intro k _; simp [locate]
+  | cons s r ih =>
+    intro k hk
+    simp only [sumSizes] at hk
+    have hnot : ¬ k < s.size := by omega
+    simp only [locate, hnot, if_false, List.length_cons]
+    have := ih (k - s.size) (by omega)
+    omega
+
+variable {K : Type} [Field K] [DecidableEq K] (p : String → K → K) (p2 : String → K → K → K)
+  (D : Deriv K)
+
+/-- Rows past the end of the output vector carry nothing. -/
+theorem imagRow_out_of_range (c : Comp) (x : Nat → Nat → K) (icols : List Nat) (row : Nat)
+    (h : sumSizes (c.outs.map (·.1)) ≤ row) : imagRow (fieldAlg p p2) D c x icols row = 0 := by
+  have hu : c.outs.length ≤ (rowVar c row).1 := by
+    have := locate_ge (c.outs.map (·.1)) row h
+    simpa [rowVar] using this
+  have he : c.outExpr (rowVar c row).1 = .lit 0 := by
+    simp only [Comp.outExpr, List.getD]
+    rw [List.getElem?_eq_none hu]
+    rfl
+  simp only [imagRow, duOut_eq_tangent, he, tangentAt, fieldAlg_lit0]
+
+theorem coloringOk_sound (c : Comp) (x : Nat → Nat → K) (G : List (List (Nat × List Nat)))
+    (h : coloringOk (fieldAlg p p2) D (fun q => decide (q = 0)) c x G = true) :
+    (G.flatten.map (·.1)).Nodup ∧
+    (∀ grp ∈ G, ∀ cr ∈ grp, ∀ row,
+      imagRow (fieldAlg p p2) D c x [cr.1] row ≠ 0 → row ∈ cr.2) ∧
+    (∀ grp ∈ G, ∀ a ∈ grp, ∀ b ∈ grp, a.1 ≠ b.1 → ∀ row, row ∈ a.2 → row ∉ b.2) ∧
+    (∀ grp ∈ G, ∀ cr ∈ grp, ∀ row ∈ cr.2, c.declRow row cr.1 = true) := by
+  simp only [coloringOk, Bool.and_eq_true, List.all_eq_true, Bool.or_eq_true, beq_iff_eq,
+    Bool.not_eq_true', List.contains_eq_mem, decide_eq_true_eq, decide_eq_false_iff_not,
+    List.mem_range] at h
+  obtain ⟨hnd, hall⟩ := h
+  refine ⟨nodupB_sound _ hnd, ?_, ?_, ?_⟩
+  · intro grp hg cr hcr row hnz
+    by_cases hrow : row < sumSizes (c.outs.map (·.1))
+    · rcases ((hall grp hg).2 cr hcr).2 row hrow with h0 | hm
+      · exact absurd h0 hnz
+      · exact hm
+    · exact absurd (imagRow_out_of_range p p2 D c x [cr.1] row (by omega)) hnz
+  · intro grp hg a ha b hb hne row hra
+    rcases (hall grp hg).1 a ha b hb with heq | hd
+    · exact absurd heq hne
+    · exact hd row hra
+  · intro grp hg cr hcr row hr
+    exact ((hall grp hg).2 cr hcr).1 row hr
+
+theorem nodup_of_mem_flatten (G : List (List (Nat × List Nat))) (grp : List (Nat × List Nat))
+    (h : grp ∈ G) (hnd : (G.flatten.map (·.1)).Nodup) : (grp.map (·.1)).Nodup := by
+  induction G with
+  | nil => simp at h
+  | cons g rest ih =>
+    have hnd2 : (g.map (·.1) ++ rest.flatten.map (·.1)).Nodup := by
+      simpa [List.flatten_cons, List.map_append] using hnd
+    rcases List.mem_cons.mp h with rfl | hin
+    · exact (List.nodup_append.mp hnd2).1
+    · exact ih hin (List.nodup_append.mp hnd2).2.1
+
+
+/-- The driver's exact instance is the field instance at `ℚ`. -/
+theorem fieldAlg_rat : fieldAlg (K := ℚ) ratPrim ratPrim2 = ratAlg := by
+  unfold fieldAlg ratAlg
+  congr 1
+
+
+end OMV.C14
